@@ -189,6 +189,8 @@ class C17(Property):
               # an explicit output device (0 is a valid PortAudio index)
               "dev": W.pick("dev", [None, None, None, 0, 5]),
               "extra_kw": W.chance("extra-kw", 1, 5),
+              # the documented daemon= option of the player thread
+              "daemon": W.pick("daemon", [None, None, None, False, True]),
               # the played generator itself calls play() (from the player
               # thread) when it reaches this item
               "spawn_at": W.choose("spawnat", max(1, ln)) if kind == "gen"
@@ -602,6 +604,8 @@ class C17(Property):
             kw["start"] = True          # any other keyword goes to open()
           if not spec.get("use_global"):
             kw["chunk_size"] = spec["chunk_size"]
+          if spec.get("daemon") is not None:
+            kw["daemon"] = spec["daemon"]
           ctl["players"].append(None)
           rt_specs.append(spec)
           ctl["script_players"].append(p)
